@@ -312,7 +312,8 @@ func main() {
 		emit(c)
 	}
 	r := hx.NewRng(ctx.Seed)
-	for i := len(cs); i < ctx.N; i++ {
+	// the corpus and the deterministic sweeps run every time; -n counts the random cases after them
+	for i := 0; i < ctx.N; i++ {
 		emit(gen(r.Fork(), i))
 	}
 	if theChild != nil {
